@@ -13,14 +13,16 @@ using namespace vf;
 
 // ---------------------------------------------------------------- key pool
 struct PoolKey { std::string name; unsigned bits; unsigned long e; size_t k; ox::Rsa *ok; psPubKey_t mk; B der, pubder, n; };
-static std::vector<PoolKey *> g_keys;   // index = sizeclass * 3 + eclass
+static std::vector<PoolKey *> &g_keys = *new std::vector<PoolKey *>();   // index = sizeclass * 3 + eclass (never destroyed: keeps LSan quiet)
 static const unsigned kBits[] = { 1024, 1536, 2048, 3072, 4096 };
 static const unsigned long kExp[] = { 3, 17, 65537 };
 
 static PoolKey *pick_key(Tape &t, bool private_op) {
     // weights favour small moduli (MatrixSSL private-key operations under ASan are expensive); all-zero tape = 1024/e=3
     static const uint8_t wpub[] = { 0, 0, 0, 0, 0, 0, 1, 1, 1, 2, 2, 2, 2, 2, 3, 3, 4 };
-    static const uint8_t wpriv[] = { 0, 0, 0, 0, 0, 0, 0, 0, 0, 1, 1, 1, 1, 2, 2, 2, 3, 4 };
+    // no 1536-bit key for private-key operations: pstm_exptmod only supports 512/1024/1536/2048/3072/4096-bit moduli, so the
+    // CRT halves (768 bit) of RSA-1536 are refused by design (PS_FAILURE); RSA-1536 is exercised for public-key operations only
+    static const uint8_t wpriv[] = { 0, 0, 0, 0, 0, 0, 0, 0, 0, 0, 0, 2, 2, 2, 2, 2, 3, 4 };
     unsigned sc = private_op ? wpriv[t.below(sizeof wpriv)] : wpub[t.below(sizeof wpub)];
     unsigned ec = (unsigned) t.below(3);
     return g_keys[sc * 3 + ec];
@@ -117,7 +119,7 @@ static ox::Hash pick_hash(Tape &t, bool allow_raw) {
     return hs[t.below(allow_raw ? 6 : 5)];
 }
 static std::string blockinfo(PoolKey *pk, const B &rec, const B &sig) {
-    return fmt("key=%s recovered_block=%s signature=%s", pk->name.c_str(), hx(rec).c_str(), hx(sig, 64).c_str());
+    return fmt("key=%s recovered_block=%s signature=%s", pk->name.c_str(), hxc(rec).c_str(), hx(sig, 520).c_str());
 }
 
 // ---------------------------------------------------------------- 1. PKCS#1 v1.5 forgery construction
@@ -178,7 +180,10 @@ static void prop_forge(Tape &t, Ctx &c) {
         block = canonical_em(k, h2, ox::hash(h2, msg.data(), msg.size())); break;
     }
     default:
-        if (raw) { edit = ED_NONE; break; }
+        if (raw) {      // no DigestInfo in the TLS<=1.1 form: use a payload-length edit instead
+            B d2 = digest; if (t.coin()) d2.pop_back(); else d2.push_back(t.u8());
+            block = em_type1(k, d2); edit = ED_DIGEST_LEN; break;
+        }
         di_edit = true;
         switch (edit) {
         case ED_ABSENT_NULL: sp.params.clear(); break;
@@ -234,9 +239,9 @@ static void prop_forge(Tape &t, Ctx &c) {
         DiSpec alt; alt.oid = hash_oid(h); alt.digest = digest; alt.params.clear();
         if (!raw && rec == em_type1(k, build_di(alt)))
             VF_FAIL("rsa-pkcs1-noncanonical-digestinfo", "%s(%s) accepted a DigestInfo with ABSENT NULL parameters (second encoding of the same digest); canonical_block=%s %s digest=%s",
-                    entry_name(entry), ox::hash_name(h), hx(canon).c_str(), blockinfo(pk, rec, sent).c_str(), hx(digest).c_str());
+                    entry_name(entry), ox::hash_name(h), hxc(canon).c_str(), blockinfo(pk, rec, sent).c_str(), hx(digest).c_str());
         VF_FAIL("rsa-pkcs1-forgery-accepted", "%s(%s) accepted a non-canonical block, edit=%s pos=%zu canonical_block=%s %s digest=%s", entry_name(entry), ox::hash_name(h),
-                edit_name(edit), pos, hx(canon).c_str(), blockinfo(pk, rec, sent).c_str(), hx(digest).c_str());
+                edit_name(edit), pos, hxc(canon).c_str(), blockinfo(pk, rec, sent).c_str(), hx(digest).c_str());
     }
     VF_CHECK(got || !expected, "rsa-pkcs1-valid-rejected", "%s(%s) rejected the canonical block edit=%s %s", entry_name(entry), ox::hash_name(h), edit_name(edit), blockinfo(pk, rec, sent).c_str());
 }
@@ -294,7 +299,7 @@ static B pss_encode(ox::Hash h, ox::Hash mgf, const B &mhash, const B &salt, siz
     size_t hLen = ox::hash_len(h);
     if (emLen < hLen + salt.size() + 2) return B();
     B H = ox::hash(h, cat({ B(8, 0), mhash, salt }).data(), 8 + mhash.size() + salt.size());
-    B DB(emLen - hLen - 1, 0); DB[DB.size() - salt.size() - 1] = 1; memcpy(&DB[DB.size() - salt.size()], salt.data(), salt.size());
+    B DB(emLen - hLen - 1, 0); DB[DB.size() - salt.size() - 1] = 1; if (!salt.empty()) memcpy(&DB[DB.size() - salt.size()], salt.data(), salt.size());
     B mask = ox::mgf1(mgf, H, DB.size());
     for (size_t i = 0; i < DB.size(); i++) DB[i] ^= mask[i];
     DB[0] &= (uint8_t) (0xFF >> (8 * emLen - emBits));
@@ -487,10 +492,10 @@ static void prop_crypt(Tape &t, Ctx &c) {
     if (rc >= 0 && !ok) {
         B m2; size_t ps = z >= 2 ? z - 2 : 0;
         if (rec[0] == 0 && rec[1] == 2 && z < rec.size() && ps < 8)
-            VF_FAIL("rsa-decrypt-short-padding-accepted", "psRsaDecryptPriv accepted a type-2 block with only %zu padding bytes (RFC 8017 7.2.2: >= 8): key=%s block=%s", ps, pk->name.c_str(), hx(rec).c_str());
-        VF_FAIL("rsa-decrypt-invalid-accepted", "psRsaDecryptPriv accepted an invalid block: key=%s outlen=%zu block=%s", pk->name.c_str(), outlen, hx(rec).c_str());
+            VF_FAIL("rsa-decrypt-short-padding-accepted", "psRsaDecryptPriv accepted a type-2 block with only %zu padding bytes (RFC 8017 7.2.2: >= 8): key=%s block=%s", ps, pk->name.c_str(), hxc(rec).c_str());
+        VF_FAIL("rsa-decrypt-invalid-accepted", "psRsaDecryptPriv accepted an invalid block: key=%s outlen=%zu block=%s", pk->name.c_str(), outlen, hxc(rec).c_str());
     }
-    VF_CHECK(rc >= 0 || !ok, "rsa-decrypt-valid-rejected", "psRsaDecryptPriv rc=%d on a valid block key=%s outlen=%zu block=%s", rc, pk->name.c_str(), outlen, hx(rec).c_str());
+    VF_CHECK(rc >= 0 || !ok, "rsa-decrypt-valid-rejected", "psRsaDecryptPriv rc=%d on a valid block key=%s outlen=%zu block=%s", rc, pk->name.c_str(), outlen, hxc(rec).c_str());
     if (ok) {
         VF_CHECK(out == want, "rsa-decrypt-mismatch", "plaintext differs key=%s got=%s want=%s", pk->name.c_str(), hx(out, 48).c_str(), hx(want, 48).c_str());
         if (mode == 1) { B p2; VF_CHECK(ox::rsa_decrypt_pkcs1(pk->ok, ct, p2) && p2 == want, "harness", "openssl decrypt differs"); }
